@@ -2021,7 +2021,7 @@ def input_axis_index(coordmap, axis_id, fix0=True):
     out_names = list(coordmap.function_range.coord_names)
     if isinstance(axis_id, int):
         if axis_id < 0:
-            axis_id = len(out_names) + axis_id
+            axis_id = len(in_names) + axis_id
         return axis_id
     in_in = axis_id in in_names
     in_out = axis_id in out_names
